@@ -77,6 +77,20 @@ class _G:
         end = self._end(r1) if (self.pad and r1 == rws - 1) else r1 + 1
         return '%s%s%d:%s%d' % ('' if plain else self._pref(s), col_letters(cc), r0 + 1, col_letters(cc), end)
 
+    def wholecols(self, width, *forms):
+        """A formula over whole columns of the own sheet: width 2 -> one two-column area (A:B); width 0 -> as many
+        single whole columns (A:A) as the form has slots.  Falls back to a bounded form when the run has no
+        whole-column references."""
+        c, rws = self._d(self.here)
+        form = self.r.choice(forms)
+        n = form.count('%s')
+        if not self.wholecol:
+            return form % tuple(self.own_col() for _ in range(n))
+        if width == 2:
+            c0 = self.r.randrange(max(1, c - 1))
+            return form % (('%s:%s' % (col_letters(c0), col_letters(min(c0 + 1, 2))),) * n)
+        return form % tuple('%s:%s' % ((col_letters(self.r.randrange(c)),) * 2) for _ in range(n))
+
     def own_col(self):
         """Unprefixed, bounded, full-height column of the formula's own sheet (SUMIF-style functions
         derive one range from another and choke on prefixes / whole columns)."""
@@ -147,6 +161,9 @@ def _templates():
     t('sumif_cell', lambda g: '=SUMIF(%s,%s,%s)' % (g.own_col(), g.own_cell(), g.own_col()))
     t('sumifs_cell', lambda g: '=SUMIFS(%s,%s,%s)' % (g.own_col(), g.own_col(), g.own_cell()), 2)
     t('averageifs_opcell', lambda g: '=AVERAGEIFS(%s,%s,"%s"&%s)' % (g.own_col(), g.own_col(), g.r.choice(['>', '<', '>=']), g.own_cell()))
+    t('wc_sum2', lambda g: g.wholecols(2, '=SUM(%s)', '=COUNT(%s)', '=MAX(%s)'))
+    t('wc_sumif', lambda g: g.wholecols(0, '=SUMIF(%s,">1",%s)', '=COUNTIFS(%s,">0",%s,"<>x")', '=SUMIFS(%s,%s,">0")'))
+    t('wc_index', lambda g: g.wholecols(2, '=INDEX(%s,2,1)', '=MATCH(%s,%%s,0)' % g.cell()) if False else g.wholecols(2, '=INDEX(%s,2,1)'))
     t('vlookup', lambda g: (lambda a: '=VLOOKUP(%s,%s,%d,FALSE())' % (g.cell(), a[0], g.r.randint(1, a[1])))(g.rect(mincols=2)), 2)
     t('index', lambda g: (lambda a: '=INDEX(%s,%d,%d)' % (a[0], g.r.randint(1, a[2]), g.r.randint(1, a[1])))(g.rect()), 2)
     t('match', lambda g: '=MATCH(%s,%s,0)' % (g.cell(), g.colrange()))
